@@ -34,25 +34,25 @@ const (
 )
 
 type histCfg struct {
-	R, K, W  int
-	sort     int
-	symClock bool
+	R, K, W   int
+	sort      int
+	symClock  bool
 	shareOpts bool // the replicas are created from ONE LogOptions value (or value copies of it made after its first use)
-	reload   bool // step kind "reload": rebuild the replica from its entries with NewLog (what the loaders do)
-	deny     bool // replica 0 refuses entries signed by the last writer
-	conc     int  // LogOptions.Concurrency of the replicas (0 = default)
-	mixIO    bool // with realIO: replicas use different codec configurations
-	fork     bool // step kind "fork": replica dst is replaced by a new log built from replica src's GetEntries() (both stay live)
-	denyP0   bool // only replica 0 refuses the denyP-th payload (the others create and hold that entry)
-	closing  bool // after the K steps every replica merges a fresh single-entry log of its own writer (one more observed step each)
-	pcAlt    int  // if non-zero: each append uses the default pointer count or this one
-	pcN      int  // number of pointer-count alternatives tried at each append (1 = default only)
-	emptyAt  int  // index of the append that carries an empty payload (-1 = none)
-	realIO   bool // the real default CBOR codec over the store's DAG service and real (keystore) identities
-	setID    bool // step kind "set identity": the replica switches to the next writer identity
-	denyP    int  // every replica refuses the entry carrying the denyP-th payload: a refused local append (-1 = none)
-	older    bool // step kind "join older": merge a log holding the source's entries without its heads (what loading an older hash yields)
-	partial  bool // step kind "join partial": merge a log holding only the source's head entries (what a length-limited load yields)
+	reload    bool // step kind "reload": rebuild the replica from its entries with NewLog (what the loaders do)
+	deny      bool // replica 0 refuses entries signed by the last writer
+	conc      int  // LogOptions.Concurrency of the replicas (0 = default)
+	mixIO     bool // with realIO: replicas use different codec configurations
+	fork      bool // step kind "fork": replica dst is replaced by a new log built from replica src's GetEntries() (both stay live)
+	denyP0    bool // only replica 0 refuses the denyP-th payload (the others create and hold that entry)
+	closing   bool // after the K steps every replica merges a fresh single-entry log of its own writer (one more observed step each)
+	pcAlt     int  // if non-zero: each append uses the default pointer count or this one
+	pcN       int  // number of pointer-count alternatives tried at each append (1 = default only)
+	emptyAt   int  // index of the append that carries an empty payload (-1 = none)
+	realIO    bool // the real default CBOR codec over the store's DAG service and real (keystore) identities
+	setID     bool // step kind "set identity": the replica switches to the next writer identity
+	denyP     int  // every replica refuses the entry carrying the denyP-th payload: a refused local append (-1 = none)
+	older     bool // step kind "join older": merge a log holding the source's entries without its heads (what loading an older hash yields)
+	partial   bool // step kind "join partial": merge a log holding only the source's head entries (what a length-limited load yields)
 }
 
 func histParams() histCfg {
